@@ -256,23 +256,31 @@ Qed.
 
 Lemma new_copy_spec : forall base st i, wf st -> i < length (impls st) ->
   let st' := new_copy st i in
-  trans base [i] st st' /\ length (impls st') = S (length (impls st)).
+  trans base [] st st' /\ length (impls st') = S (length (impls st)) /\
+  (forall k, k < NB -> uniq st' (length (impls st)) k).
 Proof.
   intros base st i W Hi. cbv zeta.
-  assert (EI : impls (new_copy st i) = impls st ++ [getI st i]) by reflexivity.
+  assert (EI : impls (new_copy st i) = impls st ++ [mkImpl (fresh_bufs st) (plain (getI st i))]) by reflexivity.
   assert (L : length (impls (new_copy st i)) = S (length (impls st))) by (rewrite EI, app_length; simpl; lia).
   assert (GN := getI_app_new st _ _ EI).
   assert (GO := fun j => getI_app_old st _ _ j EI).
-  split; auto. unfold trans. split; [|split; [lia|split]].
-  - intros j k Hj Hk. rewrite L in Hj. change (nextb (new_copy st i)) with (nextb st).
+  split; [|split; auto].
+  - unfold trans. split; [|split; [lia|split]].
+    + intros j k Hj Hk. rewrite L in Hj. change (nextb (new_copy st i)) with (nextb st + NB).
+      destruct (Nat.eq_dec j (length (impls st))) as [->|N].
+      * rewrite GN. simpl. unfold fresh_bufs. lia.
+      * rewrite GO by lia. specialize (W j k ltac:(lia) Hk). lia.
+    + intros j Hj _. split; [apply GO; auto|]. intros k Hk U j1 k1 Hj1 Hk1. rewrite L in Hj1. rewrite (GO j) by auto.
+      destruct (Nat.eq_dec j1 (length (impls st))) as [->|N].
+      * rewrite GN. simpl. unfold fresh_bufs. intro X. specialize (W j k Hj Hk). lia.
+      * rewrite GO by lia. apply U; auto; lia.
+    + intros j Hj Hl. split; [apply GO; auto|].
+      intros k Hk. simpl. specialize (W j k Hl Hk).
+      destruct (nextb st <=? bufs (getI st j) k) eqn:E; simpl; auto. apply Nat.leb_le in E. lia.
+  - intros k Hk j k' Hj Hk'. rewrite L in Hj. rewrite GN. simpl. unfold fresh_bufs.
     destruct (Nat.eq_dec j (length (impls st))) as [->|N].
-    + rewrite GN. apply W; auto.
-    + rewrite GO by lia. apply W; auto. lia.
-  - intros j Hj Hn. split; [apply GO; auto|]. intros k Hk U j1 k1 Hj1 Hk1. rewrite L in Hj1. rewrite (GO j) by auto.
-    destruct (Nat.eq_dec j1 (length (impls st))) as [->|N].
-    + rewrite GN. intro X. destruct (U i k1 Hi Hk1 X). subst. simpl in Hn. tauto.
-    + rewrite GO by lia. apply U; auto; lia.
-  - intros j Hj Hl. split; [apply GO; auto|]. intros; reflexivity.
+    + rewrite GN. simpl. unfold fresh_bufs. intro; split; auto; lia.
+    + rewrite GO by lia. intro X. specialize (W j k' ltac:(lia) Hk'). lia.
 Qed.
 
 Lemma write_buf_spec : forall base st i k d, wf st -> i < length (impls st) -> base <= i -> uniq st i k ->
@@ -594,15 +602,11 @@ Proof.
     destruct (nth_error fr src) as [i|] eqn:Fs; [|discriminate].
     assert (Hi := SB _ _ Fs).
     eapply continue_post; [apply (K _ C)|auto| |exact E].
-    destruct (new_copy_spec base st i W Hi) as (T & L).
-    simpl. split; [eapply trans_weaken; [exact T|intros x [<-|[]]; eauto]|].
+    destruct (new_copy_spec base st i W Hi) as (T & L & U).
+    simpl. split; [eapply trans_weaken; [exact T|intros x []]|].
     split; [exists [length (impls st)]; split; auto|]. intros _.
     apply sat_extend; auto.
-    + eapply sat_step with (T := [i]); eauto.
-      * apply length_set_nth.
-      * intros o i0 Fo Hn. apply nth_error_set_nth_neq. intro; subst. rewrite Fs in Fo. inversion Fo; subst. simpl in Hn; tauto.
-      * intros o i0 Fo [<-|[]]. eapply touched_clear; eauto.
-    + intros; discriminate.
+    + eapply sat_step with (T := []); eauto; intros ? ? _ [].
   - (* EMakeUnique *)
     destruct (nth_error af o) as [[|u]|] eqn:Ao; try discriminate.
     destruct (nth_error fr o) as [i|] eqn:Fo; [|discriminate].
@@ -823,37 +827,47 @@ Lemma force_spec : forall st i t, wf st -> i < length (impls st) -> t <> 0%Z ->
 Proof.
   intros st i t W Hi Ht. cbv zeta. unfold force_impl.
   set (n := length (impls st)).
-  destruct (new_copy_spec n st i W Hi) as (T1 & L1). set (st1 := new_copy st i) in *.
-  assert (G1 : getI st1 n = getI st i) by (apply (getI_app_new st st1 (getI st i)); reflexivity).
+  destruct (new_fresh_spec n st W) as (T1 & L1 & _). set (st1 := new_fresh st) in *.
   assert (W1 : wf st1) by apply T1.
-  set (d := map (Z.add t) (plain (getI st i))).
-  destruct (write_plain_spec n st1 n d W1 ltac:(lia) (le_n _)) as (T2 & U2 & L2). set (st2 := write_plain st1 n d) in *.
-  assert (G2 : getI st2 n = mkImpl (bufs (getI st i)) d).
-  { unfold st2, write_plain. rewrite getI_set_impl_eq by lia. rewrite G1. reflexivity. }
+  assert (GO1 : getI st1 i = getI st i) by (apply (getI_app_old st st1 (mkImpl (fresh_bufs st) [])); auto; reflexivity).
+  destruct (assign_share_spec n st1 n i W1 ltac:(lia) ltac:(lia) (le_n _)) as (T2 & L2). set (st2 := assign_share st1 n i) in *.
   assert (W2 : wf st2) by apply T2.
-  assert (T12 : trans n [i] st st2).
-  { eapply trans_trans; [exact T1|exact T2|]. intros x [<-|[]]. right. unfold n. lia. }
+  assert (G2 : bufs (getI st2 n) = bufs (getI st i)).
+  { unfold st2, assign_share. rewrite getI_set_impl_eq by lia. simpl. rewrite GO1. reflexivity. }
+  set (d := map (Z.add t) (plain (getI st i))).
+  destruct (write_plain_spec n st2 n d W2 ltac:(lia) (le_n _)) as (T3 & U3 & L3). set (st3 := write_plain st2 n d) in *.
+  assert (G3 : getI st3 n = mkImpl (bufs (getI st i)) d).
+  { unfold st3, write_plain. rewrite getI_set_impl_eq by lia. rewrite G2. reflexivity. }
+  assert (W3 : wf st3) by apply T3.
+  assert (HP : forall b, b < nextb st -> heap st3 b = heap st b).
+  { intros b Hb. change (heap st3 b) with (heap (alloc st []) b). apply heap_alloc_old; auto. }
+  assert (T13 : trans n [i] st st3).
+  { eapply trans_trans; [eapply trans_trans; [eapply trans_weaken; [exact T1|intros x []]|exact T2|]|exact T3|].
+    - intros x [<-|[<-|[]]]; [right; unfold n; lia|left; simpl; auto].
+    - intros x [<-|[]]. right. unfold n; lia. }
   assert (XF : Z.eqb t 0 = false) by (apply Z.eqb_neq; auto).
   destruct (Z.ltb t 0) eqn:Lt.
-  - destruct (make_unique_spec n st2 n W2 ltac:(lia) (le_n _)) as (T3 & L3 & U3 & P3 & H3).
-    set (st3 := make_unique st2 n) in *.
-    assert (W3 : wf st3) by apply T3.
-    destruct (write3_spec n st3 n (rev (heap st3 (bufs (getI st3 n) 0))) (rev (heap st3 (bufs (getI st3 n) 1)))
-                (rev (heap st3 (bufs (getI st3 n) 2))) W3 ltac:(lia) (le_n _) U3) as (T4 & I4 & A0 & A1 & A2).
-    set (st4 := write_buf _ n 2 _) in *.
-    assert (T : trans n [i] st st4).
-    { eapply trans_trans; [eapply trans_trans; [exact T12|exact T3|]|exact T4|].
+  - destruct (make_unique_spec n st3 n W3 ltac:(lia) (le_n _)) as (T4 & L4 & U4 & P4 & H4).
+    set (st4 := make_unique st3 n) in *.
+    assert (W4 : wf st4) by apply T4.
+    destruct (write3_spec n st4 n (rev (heap st4 (bufs (getI st4 n) 0))) (rev (heap st4 (bufs (getI st4 n) 1)))
+                (rev (heap st4 (bufs (getI st4 n) 2))) W4 ltac:(lia) (le_n _) U4) as (T5 & I5 & A0 & A1 & A2).
+    set (st5 := write_buf _ n 2 _) in *.
+    assert (T : trans n [i] st st5).
+    { eapply trans_trans; [eapply trans_trans; [exact T13|exact T4|]|exact T5|].
       - intros x [<-|[]]. right. unfold n; lia. - intros x []. }
-    split; [apply T|]. split; [rewrite I4; lia|]. split.
+    split; [apply T|]. split; [rewrite I5; lia|]. split.
     + intros j Hj. eapply trans_obs; eauto.
     + unfold obs_impl, xform. rewrite XF, Lt. simpl fst. simpl snd.
-      assert (G4 : getI st4 n = getI st3 n) by (unfold getI; rewrite I4; reflexivity).
-      rewrite G4, P3, G2. simpl plain. f_equal.
+      assert (G5 : getI st5 n = getI st4 n) by (unfold getI; rewrite I5; reflexivity).
+      rewrite G5, P4, G3. simpl plain. f_equal.
       unfold NB. cbn [seq map]. rewrite A0, A1, A2.
-      rewrite !H3 by (unfold NB; lia). rewrite G2. simpl bufs. reflexivity.
+      rewrite !H4 by (unfold NB; lia). rewrite G3. simpl bufs.
+      rewrite !HP by (apply W; auto; unfold NB; lia). reflexivity.
   - split; [auto|]. split; [lia|]. split.
     + intros j Hj. eapply trans_obs; eauto.
-    + unfold obs_impl, xform. rewrite XF, Lt, G2. reflexivity.
+    + unfold obs_impl, xform. rewrite XF, Lt, G3. cbn [bufs plain fst snd]. f_equal.
+      apply map_ext_in. intros k Hk. apply in_seq in Hk. apply HP. apply W; auto. lia.
 Qed.
 
 Lemma all_some_handles : forall hs args fr, hwf hs -> all_some (map (handle_impl hs) args) = Some fr ->
